@@ -23,7 +23,7 @@ def input_to_canonical_index(inputs: tp.Iterable[bool]) -> int:
     represents value of `i`th input.
 
     """
-    return int(''.join(str(int(v)) for v in inputs), 2)
+    return int('0' + ''.join(str(int(v)) for v in inputs), 2)
 
 
 def canonical_index_to_input(index: int, input_size: int) -> tp.Sequence[bool]:
@@ -42,7 +42,7 @@ def canonical_index_to_input(index: int, input_size: int) -> tp.Sequence[bool]:
     """
     s = bin(index)[2:]
     s = '0' * (input_size - len(s)) + s
-    return [bool(int(c)) for c in s][-input_size::]
+    return [bool(int(c)) for c in s][len(s) - input_size :]
 
 
 def get_bit_value(value: int, bit_idx: int, bit_size: int) -> bool:
